@@ -17,6 +17,7 @@ import zipfile
 from typing import Any, Callable, Dict, Iterable, List, Optional, Sequence, Tuple
 
 TOPS = ("diag_layer_containers", "comparam_subsets", "comparam_specs")
+WHITESPACE = "tab\there line\nfeed"  # survives in element text; attributes need &#9; / &#10;
 META = "a<b&\"c'>d"
 PLAIN = "c11_plain_x"
 XHTML = "<p>c11 other <b>markup</b></p>"
@@ -443,7 +444,7 @@ def candidates(cls_name: str, fname: str, kind: str, cur: Any,
             return [("numstr", repr(float(cur) + 1.5)), ("plain", PLAIN), ("meta", META)]
         if cur is None and fname in NUMERIC_STR_FIELDS:
             return [("numstr", "7"), ("plain", PLAIN), ("meta", META)]
-        return [("plain", PLAIN), ("meta", META)]
+        return [("plain", PLAIN), ("meta", META), ("whitespace", WHITESPACE)]
     return []
 
 
